@@ -15,7 +15,7 @@ import vlib
 from vlib import run_tlc, build_harness, run_bin, parse_jsonl, SPEC
 
 D = os.path.join(SPEC, "http")
-DEVS = ["SplitAtSlashOnly", "UserinfoInHost", "PortAppended", "FragmentKept"]
+DEVS = ["SplitAtSlashOnly", "UserinfoInHost", "PortAppended", "FragmentKept"]   # PortAppended is repaired; it stays as a sensitivity config
 
 
 def run_part(ctx, tier):
@@ -49,6 +49,11 @@ def run_part(ctx, tier):
         ctx.add_part("client URLs " + cfg, urls=s["urls"], builder_calls=s["evaluations"], accepted=s["accepted"], rfc_valid=s["rfc_valid"],
                      agree_with_rfc=s["agree_with_rfc"], not_predicted_by_code_model=s["mismatches"], builders_differ=s["builders_differ"],
                      request_line_wrong=s["line_wrong"], slow_lookups=s["slow_lookups"])
+        lv = s.get("live", {})
+        if lv.get("ran"):
+            ctx.add_part("client round trip on an ephemeral port " + cfg, **{k: lv.get(k) for k in ("ok", "url", "returned", "request_line", "host_line")})
+            if not lv.get("ok"):
+                ctx.violation("client URL: a request to an explicit port did not arrive as written: %s" % json.dumps(lv)[:600], {"kind": "url-live", "live": lv})
         bad = s["mismatches"] + s["builders_differ"] + s["line_wrong"] + s["noted"]
         if bad:
             ctx.violation("client URL: %d URL(s) where the request built by Client::get/post/put/delete is not what Url.tla's code model says; first: %s"
